@@ -132,10 +132,10 @@ def plan(tier, search):
     """(kind, count) blocks; scenario idx runs through them in order."""
     if tier == "quick":
         p = [("support", len(SUPPORT_SCENARIOS)), ("random", 1500), ("sym", 120), ("zero", 120), ("rescale", 120),
-             ("oned", 150), ("sparse", 240), ("smallcost", 10)]
+             ("oned", 150), ("sparse", 240), ("smallcost", 10), ("offsupport", 40)]
     else:
         p = [("support", len(SUPPORT_SCENARIOS)), ("random", 8000), ("sym", 600), ("zero", 600), ("rescale", 600),
-             ("oned", 800), ("sparse", 1200), ("smallcost", 60)]
+             ("oned", 800), ("sparse", 1200), ("smallcost", 60), ("offsupport", 300)]
     if search:
         p = [(k, c if k == "support" else 3 * c) for (k, c) in p]
     return p
@@ -162,7 +162,7 @@ def make_scenario(desc):
         return {"desc": desc, "runs": runs, "rels": desc.get("rels", [])}
     seed, tier, kind, k = desc["seed"], desc["tier"], desc["block"], desc["k"]
     rng = np.random.default_rng([seed, k, {"support": 1, "random": 2, "sym": 3, "zero": 4, "rescale": 5, "oned": 6,
-                                            "sparse": 7, "smallcost": 8}[kind]])
+                                            "sparse": 7, "smallcost": 8, "offsupport": 9}[kind]])
     maxn = 60 if tier == "quick" else 200
     runs, rels = [], []
 
@@ -254,6 +254,22 @@ def make_scenario(desc):
         runs += [dense_run(x, y, C, mass="real", cost="real"),
                  dense_run(x, y, C * 2.0 ** sc, mass="real", cost="real*2^%d" % sc, smallcost=sc)]
         rels.append({"rel": "cost-scale", "runs": [0, 1], "scale": sc})
+    elif kind == "offsupport":
+        # cost entries OUTSIDE the joint support (rows with x = 0, columns with y = 0) are irrelevant to the minimum
+        # (Props/C10 ot_masked_same_min) whatever their magnitude: here they are 2^30 .. 2^60 times the relevant ones
+        n = int(rng.integers(6, 49))
+        x = (gen_mass(rng, n, "real") * (rng.random(n) < 0.6)).astype(np.float32)
+        y = (gen_mass(rng, n, "real") * (rng.random(n) < 0.6)).astype(np.float32)
+        for v in (x, y):
+            if not (v != 0).any():
+                v[rng.integers(n)] = 1.0
+        ck = ["real", "sqabsij", "grid", "decimal"][k % 4]
+        C = gen_cost(rng, n, ck)
+        f = 2.0 ** [30, 45, 60, 80][(k // 4) % 4]
+        C = C + (C == 0) * 0.5 * ((x == 0)[:, None] | (y == 0)[None, :])       # off-support zeros become large too
+        C[x == 0, :] *= f
+        C[:, y == 0] *= f
+        runs.append(dense_run(x, y, np.ascontiguousarray(C), mass="partial-support", cost=ck + "+offsupport*2^%d" % int(np.log2(f)), linprog=(k % 8 == 0)))
     return {"desc": desc, "runs": runs, "rels": rels}
 
 
